@@ -20,7 +20,7 @@ META = {
 def configs(tier, prop="C07", equal=False):
     out = []
     if tier == "quick":
-        tup = [("dna", 1, 2), ("dna", 2, 3), ("protein", 2, 3), ("rna", 2, 3), ("internal", 2, 3), ("divergent", 2, 2), ("internal", 3, 3), ("dna", 3, 3), ("protein", 3, 3)]
+        tup = [("dna", 1, 2), ("dna", 2, 3), ("protein", 2, 3), ("divergent", 2, 2), ("dna", 3, 3)]
         if equal:
             tup = [("dna", 2, 2), ("dna", 3, 3), ("protein", 3, 3), ("internal", 3, 3)]
     else:
